@@ -38,8 +38,8 @@ def overview_header(nsub, gs_type='SECONDS', version='NTv2.0', system_f='GDA94',
 
 def subgrid_header(sg):
     nrow, ncol = sg['nrow'], sg['ncol']
-    n_lat = sg['s_lat'] + (nrow - 1) * sg['lat_inc']
-    w_long = sg['e_long'] + (ncol - 1) * sg['long_inc']
+    n_lat = sg['n_lat'] if 'n_lat' in sg else sg['s_lat'] + (nrow - 1) * sg['lat_inc']
+    w_long = sg['w_long'] if 'w_long' in sg else sg['e_long'] + (ncol - 1) * sg['long_inc']
     b = b''.join([
         _rec_str('SUB_NAME', sg['name']), _rec_str('PARENT', sg.get('parent', 'NONE')),
         _rec_str('CREATED', sg.get('created', '01012020')), _rec_str('UPDATED', sg.get('updated', '02032021')),
